@@ -39,10 +39,12 @@ Definition meta_regs_same (d0 d : dealer) : Prop :=
   (forall id rg0, nget (d_regs d0) id = Some rg0 ->
      exists rg, nget (d_regs d) id = Some rg /\ reg_proc rg = reg_proc rg0 /\ reg_match rg = reg_match rg0 /\
                 In meta_id (reg_callees rg)) /\
-  (forall id rg, nget (d_regs d) id = Some rg -> In meta_id (reg_callees rg) -> nget (d_regs d0) id <> None).
+  (forall id rg, nget (d_regs d) id = Some rg -> In meta_id (reg_callees rg) -> nget (d_regs d0) id <> None) /\
+  (* registration ids are positive (the generator never hands out 0) *)
+  (forall id rg, nget (d_regs d) id = Some rg -> 0 < id).
 
 Lemma meta_regs_same_ext : forall d0 d d', d_regs d' = d_regs d -> meta_regs_same d0 d -> meta_regs_same d0 d'.
-Proof. intros d0 d d' E [A B]. split; rewrite E; assumption. Qed.
+Proof. intros d0 d d' E [A [B P]]. split; [|split]; rewrite E; assumption. Qed.
 
 Record realm_wf (r : realm) : Prop := mkRealmWf {
   rw_meta_id : s_id (r_meta r) = meta_id;
@@ -351,33 +353,36 @@ Lemma mrs_update : forall d0 d d' id rg rg',
     (In meta_id (reg_callees rg) <-> In meta_id (reg_callees rg')) ->
     meta_regs_same d0 d'.
 Proof.
-  intros d0 d d' id rg rg' [A B] Hr E Hp Hm Hi. split; rewrite E.
+  intros d0 d d' id rg rg' [A [B P]] Hr E Hp Hm Hi. split; [|split]; rewrite E.
   - intros id0 rg0 H0. destruct (A id0 rg0 H0) as (rg1 & H1 & P1 & M1 & I1). rewrite ngs.
     destruct (N.eqb_spec id0 id) as [->|Hn]; [|eauto].
     assert (rg1 = rg) by congruence. subst rg1. exists rg'. repeat split; try congruence. now apply Hi.
   - intros id1 rg1. rewrite ngs. destruct (N.eqb_spec id1 id) as [->|Hn]; [|apply B].
     intros H1 Hin. inversion H1; subst rg1. eapply B; [exact Hr|now apply Hi].
+  - intros id1 rg1. rewrite ngs. destruct (N.eqb_spec id1 id) as [->|Hn]; [intros _; eapply P; eauto|apply P].
 Qed.
 
 Lemma mrs_add : forall d0 d d' id rg',
     meta_regs_same d0 d -> nget (d_regs d) id = None -> d_regs d' = nset (d_regs d) id rg' ->
-    ~ In meta_id (reg_callees rg') -> meta_regs_same d0 d'.
+    ~ In meta_id (reg_callees rg') -> 0 < id -> meta_regs_same d0 d'.
 Proof.
-  intros d0 d d' id rg' [A B] Hn E Hi. split; rewrite E.
+  intros d0 d d' id rg' [A [B Pz]] Hn E Hi Hpos. split; [|split]; rewrite E.
   - intros id0 rg0 H0. destruct (A id0 rg0 H0) as (rg1 & H1 & P). rewrite ngs.
     destruct (N.eqb_spec id0 id) as [->|Hne]; [congruence|eauto].
   - intros id1 rg1. rewrite ngs. destruct (N.eqb_spec id1 id) as [->|Hne]; [|apply B].
     intros H1 Hin. inversion H1; subst. contradiction.
+  - intros id1 rg1. rewrite ngs. destruct (N.eqb_spec id1 id) as [->|Hne]; [intros _; exact Hpos|apply Pz].
 Qed.
 
 Lemma mrs_del : forall d0 d d' id rg,
     meta_regs_same d0 d -> nget (d_regs d) id = Some rg -> ~ In meta_id (reg_callees rg) ->
     d_regs d' = ndel (d_regs d) id -> meta_regs_same d0 d'.
 Proof.
-  intros d0 d d' id rg [A B] Hr Hi E. split; rewrite E.
+  intros d0 d d' id rg [A [B P]] Hr Hi E. split; [|split]; rewrite E.
   - intros id0 rg0 H0. destruct (A id0 rg0 H0) as (rg1 & H1 & P1 & M1 & I1). rewrite ngd.
     destruct (N.eqb_spec id0 id) as [->|Hne]; [|eauto]. assert (rg1 = rg) by congruence. subst. contradiction.
   - intros id1 rg1. rewrite ngd. destruct (N.eqb_spec id1 id); [discriminate|apply B].
+  - intros id1 rg1. rewrite ngd. destruct (N.eqb_spec id1 id); [discriminate|apply P].
 Qed.
 
 Lemma mrs_register : forall d0 cfg d s req opts proc,
@@ -394,16 +399,42 @@ Proof.
       destruct (rw_reg d W id0 rg Hr) as (Eid & _). rewrite Eid.
       eapply (mrs_update d0 d _ id0 rg); [exact H|exact Hr|reflexivity|reflexivity|reflexivity|].
       cbn [reg_callees]. rewrite in_app_iff. cbn [In]. split; [auto|]. intros [Hi|[Hi|[]]]; [exact Hi|congruence].
-    + cbn [fst]. eapply (mrs_add d0 d _ (idgen_next (d_idgen d))); [exact H| | |].
+    + cbn [fst]. eapply (mrs_add d0 d _ (idgen_next (d_idgen d))); [exact H| | | |].
       * destruct (nget (d_regs d) (idgen_next (d_idgen d))) as [rg|] eqn:E; [|reflexivity].
         destruct (rw_reg d W _ _ E) as (_ & _ & Hle). rewrite idgen_next_nowrap in Hle by exact Hlt. lia.
       * destruct (mkind_of (opt_string opts "match")); reflexivity.
       * cbn [reg_callees In]. intros [Hi|[]]. congruence.
-  - cbn [fst]. eapply (mrs_add d0 d _ (idgen_next (d_idgen d))); [exact H| | |].
+      * rewrite idgen_next_nowrap by exact Hlt. lia.
+  - cbn [fst]. eapply (mrs_add d0 d _ (idgen_next (d_idgen d))); [exact H| | | |].
     + destruct (nget (d_regs d) (idgen_next (d_idgen d))) as [rg|] eqn:E; [|reflexivity].
       destruct (rw_reg d W _ _ E) as (_ & _ & Hle). rewrite idgen_next_nowrap in Hle by exact Hlt. lia.
     + destruct (mkind_of (opt_string opts "match")); reflexivity.
     + cbn [reg_callees In]. intros [Hi|[]]. congruence.
+    + rewrite idgen_next_nowrap by exact Hlt. lia.
+Qed.
+
+(** registration ids stay positive whoever registers (used for the initial dealer) *)
+Definition regs_pos (d : dealer) : Prop := forall id rg, nget (d_regs d) id = Some rg -> 0 < id.
+
+Lemma regs_pos_register : forall cfg d s req opts proc,
+    regs_pos d -> regs_core d -> d_idgen d < max_idN ->
+    regs_pos (fst (fst (register cfg d s req opts proc))).
+Proof.
+  intros cfg d s req opts proc P W Hlt. unfold register.
+  destruct (negb (valid_uri _ _ _)); [exact P|].
+  destruct (str_prefix_wamp proc && _); [exact P|].
+  destruct (negb (c_disclose cfg) && _ && _); [exact P|].
+  assert (Hnew : forall d' rg', d_regs d' = nset (d_regs d) (idgen_next (d_idgen d)) rg' -> regs_pos d').
+  { intros d' rg' E id rg. rewrite E, ngs. destruct (N.eqb_spec id (idgen_next (d_idgen d))) as [->|Hn]; [|apply P].
+    intros _. rewrite idgen_next_nowrap by exact Hlt. lia. }
+  destruct (sget (d_map d (mkind_of (opt_string opts "match"))) proc) as [id0|] eqn:Hm.
+  - destruct (nget (d_regs d) id0) as [rg|] eqn:Hr.
+    + destruct (negb (shared_policy _) || _ || _); [exact P|]. cbn [fst].
+      destruct (rw_reg d W id0 rg Hr) as (Eid & _). rewrite Eid.
+      intros id rg1. cbn [d_regs d_set_callee_regs d_set_regs]. rewrite ngs.
+      destruct (N.eqb_spec id id0) as [->|Hn]; [intros _; eapply P; eauto|apply P].
+    + cbn [fst]. eapply Hnew. destruct (mkind_of (opt_string opts "match")); reflexivity.
+  - cbn [fst]. eapply Hnew. destruct (mkind_of (opt_string opts "match")); reflexivity.
 Qed.
 
 Lemma mrs_del_callee_reg : forall d0 d sid id,
